@@ -1,7 +1,7 @@
 (* C04 - flow derives pre-release, post and dev parts from the documented branch rules.
    Model: Model/Flow.v (the cli/flow module: branch rules, two-pass pipeline, the five bump templates as the conditions they
    evaluate to) + Model/Hash.v (SipHash-1-3 of DefaultHasher::new(), hash_int / hash). *)
-From ZV Require Import Str Dec Hash Flow FlowProofs.
+From ZV Require Import Str Dec Hash Flow FlowProofs Convert Cli ClockProofs CtxFrame FlowClock.
 Open Scope N_scope.
 
 (* rule patterns: `prefix/*` matches exactly the names that have `prefix/` as a proper prefix ... *)
@@ -39,8 +39,17 @@ Example c04_ex_rules :
   b [100;101;118;101;108;111;112] = (Pep440.Beta, Some 1, ModeCommit).              (* develop *)
 Proof. vm_compute. repeat split. Qed.
 
+(* nothing changes at a clean tagged commit: when --dirty is not forced and the state is calm (not dirty, distance 0 or unset), flow's
+   result is exactly the object of its first pass - the base version with the explicit overrides, no bump, no dev timestamp *)
+Theorem c04_clean_tag_unchanged : forall f stdin now,
+  o_dirty (f_base f) = false -> flow_validate f = true ->
+  forall cur, (let a1 := pass_args f false in run_pass a1 (flow_overrides a1) stdin now = OOk cur) -> calm (z_vars cur) ->
+  flow_zerv f stdin now = OOk cur.
+Proof. exact flow_clean_is_first_pass. Qed.
+
 Print Assumptions c04_wildcard_rule.
 Print Assumptions c04_star_rule.
 Print Assumptions c04_exact_rule.
 Print Assumptions c04_first_match.
 Print Assumptions c04_hash_length.
+Print Assumptions c04_clean_tag_unchanged.
